@@ -256,6 +256,10 @@ def check(tier="quick", seed=0, workers=None, only=None):
             total += n
             viols += v
             classes |= cl
+    from . import conc, common
+    cst, cinfo = conc.run_for("C03", tier, seed, workers, only) if not only else (engine.Stats(bound=None), {})
+    viols += common.collect(cst, ("C03",))
+    total += cst.evaluations
     samples = [{"method": c[0], "target": repr(TARGETS[c[1]]), "headers": [HEADER_ALPHABET[i][0] for i in c[2]], "body": c[3]}
                for c in allc[:: max(1, len(allc) // 5)][:5]]
     cov = {
@@ -263,9 +267,9 @@ def check(tier="quick", seed=0, workers=None, only=None):
         "rule": ("full product method x target x header sequence (length <= %d over an 8-symbol alphabet incl. illegal names/values) x body form, "
                  "each on HTTP/1.1 and HTTP/2, sync and async, sent twice per pool (first use + reuse); distinct class = (illegal method?, target, header-name set, body form, protocol, violated?)"
                  % (2 if tier == "quick" else 3)),
-        "samples": samples, "request_shapes": len(allc),
+        "samples": samples, "request_shapes": len(allc), "resend_scenarios": cinfo,
     }
     return {"level": "exploration", "coverage": cov, "violations": viols,
             "assumptions": ["legality judged by the RFC 9110/9112 token / field-value / request-target grammars written out in this file",
                             "illegal heads are judged on HTTP/1.1 only (HPACK can encode any octets; the clause is an HTTP/1.1 notion)",
-                            "transparent re-sends (GOAWAY, HTTP/1.1 fallback races) are exercised by C14's scenarios, which run this property's peer-side parsers as an oracle too"]}
+                            "transparent re-sends: GOAWAY-refused streams and HTTP/1.1-fallback races are explored on the virtual loop (resend_scenarios); every transmission the peers decode must carry the caller's body"]}
